@@ -7,6 +7,7 @@ c06_ops.py: every public method that returns a leg, applied to legs and to pipes
 resulting LegPipe).
 """
 import itertools
+import time
 
 import common
 import c06_ops
@@ -114,20 +115,18 @@ def pipe_case_lit(case, r):
         zll(r['charges']), zl(r['slices']), zll(r['q_map']), zl(r['q_map_slices']), mif)
 
 
-def pobs_lit(r):
-    mif = '(@nil (option Z))' if not r['mif'] else '[' + '; '.join('(@None Z)' if k is None else '(Some (%d))' % k for k in r['mif']) + ']'
-    return '(%s, %s, %s, %s, %s)' % (zll(r['charges']), zl(r['slices']), zll(r['q_map']), zl(r['q_map_slices']), mif)
-
-
-def pipe_ops_case_lit(case, coq_ops):
-    """(chinfo, legs, qconj, sort, bunch, [(op, (stored legs of the result, qconj of the result, observables of the result))])"""
+def pipe_case2_lit(case, r, coq_ops):
+    """(case of check_pipe_case, [(op, (directions of the stored legs of the result, qconj, charges, same_blocks, same_layout))])"""
     mods = case['mods']
-    legs = '[' + '; '.join(leg_lit(mods, l) for l in case['legs']) + ']'
+    nblocks = [[l[0], [norm_charge(mods, c) for c in l[1]]] for l in case['legs']]
     ops = []
-    for code, r in coq_ops:
-        rl = '[' + '; '.join(leg_lit(mods, l) for l in r['legs']) + ']' if r['legs'] else '(@nil (list (Z * list Z) * Z))'
-        ops.append('(%d%%nat, (%s, (%d), %s))' % (code, rl, r['qconj'], pobs_lit(r)))
-    return '(%s, %s, (%d), %s, %s, [%s])' % (zl(mods), legs, case['qconj'], bl(case['sort']), bl(case['bunch']), '; '.join(ops))
+    for code, x in coq_ops:
+        same_blocks = [[l[0], [norm_charge(mods, c) for c in l[1]]] for l in x['legs']] == nblocks
+        same_layout = all(x[k] == r[k] for k in ('slices', 'q_map', 'q_map_slices'))
+        ops.append('(%d%%nat, (%s, (%d), %s, %s, %s))' % (code, zl([l[2] for l in x['legs']]), x['qconj'], zll(x['charges']),
+                                                        bl(same_blocks), bl(same_layout)))
+    return '(%s, %s)' % (pipe_case_lit(case, r),
+                         '[' + '; '.join(ops) + ']' if ops else '(@nil (nat * (list Z * Z * list (list Z) * bool * bool)))')
 
 
 def leg_case_lit(case, r):
@@ -408,12 +407,12 @@ CMP_KEYS = ('charges', 'slices', 'q_map', 'q_map_slices', 'sorted', 'bunched', '
             'legs', 'attrs_ok', 'ops')
 
 
-def run_chunks(script, kind, cases, config, optimize0=True):
+def run_chunks(script, kind, cases, config, optimize0=True, extra=None):
     n = common.NPROC
     if config == 'cy':
         common.cy_build()      # build/overlay once in this thread: cy_build is not safe under run_impl_parallel's threads
     chunks = [cases[i::n] for i in range(n)]
-    res = common.run_impl_parallel(script, [{'kind': kind, 'cases': ch} for ch in chunks if ch], config=config,
+    res = common.run_impl_parallel(script, [dict({'kind': kind, 'cases': ch}, **(extra or {})) for ch in chunks if ch], config=config,
                                    optimize0=optimize0)
     out = [None] * len(cases)
     k = 0
@@ -445,9 +444,17 @@ def coverage_table(ctx, cls, tables, seen, expect):
     if not tables:
         ctx.fail('correspondence', 'no reflection table of %s came back from the runner' % cls, None)
         return None
-    table = tables[0]
-    if any(t != table for t in tables[1:]):
-        ctx.notes.append('reflection tables of %s differ between runner processes (object dependent results)' % cls)
+    table = {n: dict(e) for n, e in tables[0].items()}
+    for t in tables[1:]:      # the probe calls are made on different objects: keep the most informative outcome
+        for n, e in t.items():
+            m = table.setdefault(n, dict(e))
+            if e.get('returns_leg') and not m.get('returns_leg') or (str(m.get('result', '')).startswith('raised') and not str(e.get('result', '')).startswith('raised')):
+                keep = m.get('applied')
+                m.update(e)
+                if isinstance(keep, list) and isinstance(e.get('applied'), list):
+                    m['applied'] = sorted(set(keep) | set(e['applied']))
+            elif isinstance(m.get('applied'), list) and isinstance(e.get('applied'), list):
+                m['applied'] = sorted(set(m['applied']) | set(e['applied']))
     for t in c06_ops.table_problems(table, expect):
         ctx.fail('correspondence', '%s: %s' % (cls, t), None)
     for n in sorted(expect):
@@ -514,7 +521,15 @@ def rand_array_case(rng, seed):
 
 def main(ctx):
     rng = ctx.rng
+    timing = ctx.cov['timing_s'] = {}
+    t_last = [time.time()]
+
+    def lap(name):
+        now = time.time()
+        timing[name] = round(timing.get(name, 0) + now - t_last[0], 1)
+        t_last[0] = now
     ctx.proof = common.check_proofs('C06', extra_targets=['Model/PipeCase.vo', 'Model/PipeOps.vo'])
+    lap('proofs')
     boost = 1 if ctx.proof.ok else 3
     thorough = ctx.thorough()
     # ---------------- pipes: exhaustive small domains + random larger ones
@@ -550,7 +565,7 @@ def main(ctx):
             pipes.append(c)
     # method stream: every public method that returns a leg is applied to every pipe; for a budgeted subset an Array
     # carrying each resulting pipe is split / recombined (all random pipes + a stride of the enumeration)
-    narr = ctx.pick(2200, 12000) * boost
+    narr = ctx.pick(1500, 10000) * boost
     stride = max(1, int(round(len(pipes) / float(narr))))
     arr_off = rng.randrange(stride)
     for i, c in enumerate(pipes):
@@ -558,19 +573,24 @@ def main(ctx):
             c['arr_seed'] = ctx.seed * 7919 + i
         if i < common.NPROC:
             c['table'] = True
+    lap('generate')
     res_py, err = run_chunks('c06_impl.py', 'pipe', pipes, 'py')
+    lap('pipe-impl-py')
     if err:
         ctx.fail('correspondence', 'pipe runner (py) failed: ' + err[-600:], None)
         return ctx.finish(RULE)
     # the compiled replacements are only active at TENPY_OPTIMIZE >= 1 (tools/optimization.use_cython)
-    res_cy, err = run_chunks('c06_impl.py', 'pipe', pipes, 'cy', optimize0=False)
+    # (compiled: _init_from_legs and the Array functions; the leg methods themselves are python in both configurations, so the
+    # compiled run applies them only where an Array is split / recombined)
+    res_cy, err = run_chunks('c06_impl.py', 'pipe', pipes, 'cy', optimize0=False, extra={'ops_all': False})
+    lap('pipe-impl-cy')
     if err:
         ctx.fail('correspondence', 'pipe runner (cy) failed: ' + err[-600:], None)
         res_cy = [None] * len(pipes)
     lits = []
     lit_idx = []
-    op_lits = []
-    op_idx = []
+    n_op_lits = 0
+    method_fails = []
     tables = []
     seen_pipe = {}
     hist = {'collisions': 0, 'single_block': 0, 'qconj-1': 0, 'zero_size': 0, 'nlegs': {}}
@@ -584,10 +604,16 @@ def main(ctx):
             if 'runner_error' in rc:
                 ctx.fail('oracle', 'LegPipe (compiled) raised on valid legs: ' + rc['runner_error'][-400:],
                          {'stream': 'pipe', 'config': 'cy', 'case': case})
-            elif any(rc.get(k) != r[k] for k in CMP_KEYS):
-                diff = [k for k in CMP_KEYS if r[k] != rc.get(k)]
-                ctx.fail('oracle', 'compiled and python LegPipe._init_from_legs differ in %s' % diff,
-                         {'stream': 'pipe', 'config': 'cy', 'case': case, 'py': {k: r[k] for k in diff}, 'cy': {k: rc.get(k) for k in diff}})
+            else:
+                diff = [k for k in CMP_KEYS if r[k] != rc.get(k) and not (k == 'ops' and rc.get('ops') is None)]
+                if diff:
+                    def show(x, k):
+                        if k != 'ops':
+                            return x.get(k)
+                        return [o for o, o2 in zip(x['ops'], (rc if x is r else r)['ops']) if o != o2][:3]
+                    ctx.fail('oracle', 'compiled and python configuration differ in %s of a LegPipe (ops: results of its public methods / '
+                             'split_legs, combine_legs of an Array carrying them)' % diff,
+                             {'stream': 'pipe', 'config': 'cy', 'case': case, 'py': {k: show(r, k) for k in diff}, 'cy': {k: show(rc, k) for k in diff}})
         for key, text in pipe_oracle(case, r):
             ctx.fail('oracle', text, {'stream': 'pipe', 'config': 'py', 'case': case}, match_key=key)
         # every public method that returns a leg, applied to this pipe
@@ -601,12 +627,10 @@ def main(ctx):
         oprobs, seen, coq_ops = c06_ops.ops_oracle(mods, base, aux, r['ops'], r, pipe_core_oracle)
         merge_seen(seen_pipe, seen)
         for key, text in oprobs[:6]:
-            ctx.fail('oracle', text, {'stream': 'pipe-methods', 'config': 'py', 'case': case}, match_key=key)
+            method_fails.append((0 if ('breaks the pipe contract' in text or 'an Array carrying' in text) else 1, key, text, case))
         ctx.count('pipe-methods', case, nontrivial=len(r['q_map']) > 1 and any(any(c) for c in r['charges']),
                   sample={'case': case, 'methods': sorted(seen)})
-        if coq_ops:
-            op_lits.append(pipe_ops_case_lit(case, coq_ops))
-            op_idx.append(i)
+        n_op_lits += len(coq_ops)
         nrows = len(r['q_map'])
         coll = nrows > len(r['charges'])
         hist['collisions'] += coll
@@ -616,30 +640,26 @@ def main(ctx):
         hist['nlegs'][len(case['legs'])] = hist['nlegs'].get(len(case['legs']), 0) + 1
         ctx.count('pipe', case, nontrivial=nrows > 1,
                   sample={'case': case, 'charges': r['charges'], 'q_map': r['q_map'], 'mif': r['mif']})
-        lits.append(pipe_case_lit(case, r))
+        lits.append(pipe_case2_lit(case, r, coq_ops))
         lit_idx.append(i)
-    bad, err = common.coq_failing_indices('cases_c06_pipe', ['Base.Prelude', 'Model.ChargeL', 'Model.Leg', 'Model.Pipe', 'Model.PipeCase'],
-                                          'check_pipe_case', lits, shard=300)
+    method_fails.sort(key=lambda x: x[0])      # replay: prefer an input on which the contract itself (fusion rule / split) fails
+    for _, key, text, case in method_fails[:200]:
+        ctx.fail('oracle', text, {'stream': 'pipe-methods', 'config': 'py', 'case': case}, match_key=key)
+    lap('pipe-oracles')
+    bad, err = common.coq_failing_indices('cases_c06_pipe', ['Base.Prelude', 'Model.ChargeL', 'Model.Leg', 'Model.Pipe', 'Model.PipeCase',
+                                                             'Model.PipeOps'], 'check_pipe_case2', lits, shard=300)
     if err:
         ctx.fail('correspondence', 'pipe model evaluation failed: ' + err[-600:], None)
     for b in bad[:5]:
         i = lit_idx[b]
         r = res_py[i]
-        ctx.fail('correspondence', 'Model/Pipe.v and LegPipe disagree (charges/slices/q_map/q_map_slices/map_incoming_flat)',
-                 {'stream': 'pipe', 'case': pipes[i], 'impl': {k: r[k] for k in ('charges', 'slices', 'q_map', 'q_map_slices', 'mif')}})
-    bad, err = common.coq_failing_indices('cases_c06_pipeops', ['Base.Prelude', 'Model.ChargeL', 'Model.Leg', 'Model.Pipe', 'Model.PipeCase',
-                                                                'Model.PipeOps'], 'check_pipe_ops_case', op_lits, shard=300)
-    if err:
-        ctx.fail('correspondence', 'pipe method model evaluation failed: ' + err[-600:], None)
-    for b in bad[:5]:
-        i = op_idx[b]
-        ctx.fail('correspondence', 'Model/PipeOps.v (copy / conj_pipe / flip_pipe) and LegPipe.copy / conj / flip_charges_qconj / outer_conj disagree '
-                 '(stored incoming legs, qconj, charges, slices, q_map, q_map_slices or map_incoming_flat of the result)',
-                 {'stream': 'pipe-methods', 'case': pipes[i],
-                  'impl': [[o['method'], o['variant'], o.get('legs')] for o in res_py[i]['ops']
-                           if o['method'] in ('copy', 'conj', 'flip_charges_qconj', 'outer_conj')]})
+        ctx.fail('correspondence', 'Model/Pipe.v + Model/PipeOps.v and LegPipe disagree (charges/slices/q_map/q_map_slices/map_incoming_flat of the pipe, '
+                 'or stored incoming legs/qconj/charges/slices/q_map/q_map_slices of its copy() / conj() / flip_charges_qconj() / outer_conj())',
+                 {'stream': 'pipe', 'case': pipes[i], 'impl': {k: r[k] for k in ('charges', 'slices', 'q_map', 'q_map_slices', 'mif')},
+                  'impl_methods': [[o['method'], o.get('legs')] for o in r['ops'] if o['method'] in ('copy', 'conj', 'flip_charges_qconj', 'outer_conj')]})
+    lap('pipe-coq')
     method_cov = {'LegPipe': coverage_table(ctx, 'LegPipe', tables, seen_pipe, c06_ops.EXPECT_PIPE)}
-    ctx.cov['traces_validated_against_impl'] = len(lits) + len(op_lits)
+    ctx.cov['traces_validated_against_impl'] = len(lits) + n_op_lits
     ctx.cov['pipe_enumeration'] = stride_note
     ctx.cov['input_distribution'] = hist
     # ---------------- leg operations
@@ -663,6 +683,7 @@ def main(ctx):
     for c in lcases[:common.NPROC]:
         c['table'] = True
     res_l, err = run_chunks('c06_impl.py', 'leg', lcases, 'py')
+    lap('leg-impl')
     if err:
         ctx.fail('correspondence', 'leg runner failed: ' + err[-600:], None)
         res_l = []
@@ -695,6 +716,7 @@ def main(ctx):
         ctx.count('leg', case, nontrivial=len(case['leg'][0]) > 1, sample={'case': case, 'sort': r['sort_1'], 'bunch': r['bunch']})
         lits.append(leg_case_lit(case, r))
         lit_idx.append(i)
+    lap('leg-oracles')
     bad, err = common.coq_failing_indices('cases_c06_leg', ['Base.Prelude', 'Model.ChargeL', 'Model.Leg', 'Model.Pipe', 'Model.PipeCase'],
                                           'check_leg_case', lits, shard=300)
     if err:
@@ -706,6 +728,7 @@ def main(ctx):
     ctx.cov['traces_validated_against_impl'] += len(lits)
     method_cov['LegCharge'] = coverage_table(ctx, 'LegCharge', tables, seen_leg, c06_ops.EXPECT_LEG) if res_l else None
     ctx.cov['leg_method_coverage'] = method_cov
+    lap('leg-coq')
     # ---------------- arrays: combine_legs / split_legs / sort_legcharge / as_completely_blocked, both configs
     acases = [c['case'] for c in common.corpus_cases('C06') if c.get('stream') == 'array']
     na = ctx.pick(300, 2000) * boost
@@ -731,6 +754,7 @@ def main(ctx):
                 ctx.fail('oracle', text, {'stream': 'array', 'config': config, 'case': case}, match_key=mk)
             ctx.count('array-' + config, case, nontrivial=r['stored_blocks'] > 1,
                       sample={'case': case, 'stored_blocks': r['stored_blocks']})
+    lap('array')
     ctx.assumptions += [
         'C06 model: block sizes / flat indices are integers, charges unbounded integers (no int64 overflow); cached flags sorted/bunched '
         'are not modelled (checked by test_sanity at TENPY_OPTIMIZE=0 in the oracle)',
